@@ -221,6 +221,10 @@ func (p *provider) Close() error {
 			if err := s.Close(); err != nil {
 				errors = append(errors, fmt.Errorf("scope %s: %w", s.ID(), err))
 			}
+
+			// The scope may be in the middle of being closed by someone else: every
+			// scope must be completely disposed before the singletons are
+			<-s.done
 		}
 	}
 
